@@ -351,10 +351,17 @@ def main(path, default_bg, mode, premium):
                             if isinstance(decl, Declaration) and decl.name.startswith(
                                 "--"
                             ):
+                                # Cascade: !important first, then :root over html,
+                                # then the later definition
+                                rank = (bool(decl.important), selector == ":root")
+                                previous = variables.get(decl.name)
+                                if previous and previous["rank"] > rank:
+                                    continue
                                 variables[decl.name] = {
                                     "decl": decl,
                                     "value": tinycss2.serialize(decl.value).strip(),
                                     "rule": rule,  # Keep ref to rule
+                                    "rank": rank,
                                 }
 
             process_nodes_recursive(
